@@ -86,6 +86,83 @@ struct Add {
     /// the source register IS the base register (`xadd [rX+d], rX`): the addend is the base
     /// register's value, i.e. an address — resolved per process, such runs are not hashed
     src_is_base: bool,
+    /// straight-line programs only: a register is computed right before this add and a conditional
+    /// jump on it right after the add decides whether the next adds are executed
+    guard: Option<Guard>,
+}
+
+/// `mov64 r9, pre ; ... ; <alu> r9, alu_imm ; xadd ; <jmp> r9, jmp_imm, +(the next `skip` adds)`
+#[derive(Clone, Debug)]
+struct Guard {
+    pre: i32,
+    /// eBPF ALU opcode with an immediate operand (64- or 32-bit add, sub, or, and, xor)
+    alu: u8,
+    alu_imm: i32,
+    /// eBPF conditional jump opcode with an immediate operand (JMP or JMP32 class)
+    jmp: u8,
+    jmp_imm: i32,
+    skip: u8,
+}
+
+impl Guard {
+    fn reg_value(&self) -> u64 {
+        let r = self.pre as i64 as u64;
+        let op = self.alu & 0xf0;
+        if self.alu & 7 == 7 {
+            let i = self.alu_imm as i64 as u64;
+            match op {
+                0x00 => r.wrapping_add(i),
+                0x10 => r.wrapping_sub(i),
+                0x40 => r | i,
+                0x50 => r & i,
+                _ => r ^ i,
+            }
+        } else {
+            let (r, i) = (r as u32, self.alu_imm as u32);
+            (match op {
+                0x00 => r.wrapping_add(i),
+                0x10 => r.wrapping_sub(i),
+                0x40 => r | i,
+                0x50 => r & i,
+                _ => r ^ i,
+            }) as u64
+        }
+    }
+    fn taken(&self) -> bool {
+        let r = self.reg_value();
+        let op = self.jmp & 0xf0;
+        if self.jmp & 7 == 5 {
+            let i = self.jmp_imm as i64 as u64;
+            match op {
+                0x10 => r == i,
+                0x50 => r != i,
+                0x20 => r > i,
+                0x30 => r >= i,
+                0xa0 => r < i,
+                0xb0 => r <= i,
+                0x40 => r & i != 0,
+                0x60 => (r as i64) > i as i64,
+                0x70 => (r as i64) >= i as i64,
+                0xc0 => (r as i64) < i as i64,
+                _ => (r as i64) <= i as i64,
+            }
+        } else {
+            let (r, i) = (r as u32, self.jmp_imm as u32);
+            match op {
+                0x10 => r == i,
+                0x50 => r != i,
+                0x20 => r > i,
+                0x30 => r >= i,
+                0xa0 => r < i,
+                0xb0 => r <= i,
+                0x40 => r & i != 0,
+                0x60 => (r as i32) > i as i32,
+                0x70 => (r as i32) >= i as i32,
+                0xc0 => (r as i32) < i as i32,
+                _ => (r as i32) <= i as i32,
+            }
+        }
+    }
 }
 
 #[derive(Clone, Debug)]
@@ -100,6 +177,9 @@ struct ExecSpec {
     /// in a loop over a single add: the source register is loaded once before the loop and grows by
     /// this much after every add (the back edge lands on the atomic add itself); 0 = reloaded each time
     loop_step: u32,
+    /// in a loop: the counter is decremented at the top of the body, so that only the atomic add
+    /// (and the set-up of its operands) lies between the decrement and the back edge testing it
+    loop_dec_first: bool,
     /// the adds sit in an eBPF-to-eBPF local function called from main (interpreter and JIT only)
     in_callee: bool,
     /// a helper that overwrites every caller-saved register is called before the adds
@@ -199,9 +279,21 @@ fn noop_helper(_a: u64, _b: u64, _c: u64, _d: u64, _e: u64) -> u64 {
     0
 }
 
+fn guards_active(e: &ExecSpec) -> bool {
+    e.loop_n <= 1
+}
+
 fn body_insns(e: &ExecSpec) -> Vec<[u8; 8]> {
     let mut v: Vec<[u8; 8]> = Vec::new();
-    for a in &e.adds {
+    // (index of the conditional jump in v, index of the add it follows, adds to skip)
+    let mut jumps: Vec<(usize, usize, u8)> = Vec::new();
+    let mut group_start: Vec<usize> = Vec::new();
+    for (ai, a) in e.adds.iter().enumerate() {
+        group_start.push(v.len());
+        let guard = if guards_active(e) { a.guard.as_ref() } else { None };
+        if let Some(g) = guard {
+            v.push(ins(0xb7, 9, 0, 0, g.pre));
+        }
         // base register = region + bias, always rebuilt from the callee-saved copy in r6 (any
         // register may have been used as a source since)
         if a.base_reg != 6 {
@@ -220,7 +312,20 @@ fn body_insns(e: &ExecSpec) -> Vec<[u8; 8]> {
             v.push(ins(0xb7, a.src_reg, 0, 0, a.addend as i64 as i32));
         }
         let disp = a.off as i32 - a.bias;
+        if let Some(g) = guard {
+            v.push(ins(g.alu, 9, 0, 0, g.alu_imm));
+        }
         v.push(ins(if a.width == 4 { 0xc3 } else { 0xdb }, a.base_reg, src_reg, disp as i16, 0));
+        if let Some(g) = guard {
+            jumps.push((v.len(), ai, g.skip));
+            v.push(ins(g.jmp, 9, 0, 0, g.jmp_imm));
+        }
+    }
+    group_start.push(v.len());
+    for (at, ai, skip) in jumps {
+        let land = group_start[(ai + 1 + skip as usize).min(e.adds.len())];
+        let off = land as i32 - (at as i32 + 1);
+        v[at][2..4].copy_from_slice(&(off as i16).to_le_bytes());
     }
     if e.loop_n > 1 && e.loop_step > 0 && e.adds.len() == 1 && !e.adds[0].src_is_base {
         // everything up to the atomic add runs once; the back edge targets the add itself:
@@ -232,19 +337,31 @@ fn body_insns(e: &ExecSpec) -> Vec<[u8; 8]> {
         // the counter is set up first, so that the source register is loaded right before the add
         let mut l = vec![ins(0xb7, 9, 0, 0, e.loop_n as i32)];
         l.extend(v);
-        l.push(xadd);
-        l.push(ins(0x07, a.src_reg, 0, 0, e.loop_step as i32));
-        l.push(ins(0x17, 9, 0, 0, 1));
+        if e.loop_dec_first {
+            // L: add64 src, step ; sub r9, 1 ; xadd ; jne r9, 0, L   (the k-th add is of addend + (k+1)*step)
+            l.push(ins(0x07, a.src_reg, 0, 0, e.loop_step as i32));
+            l.push(ins(0x17, 9, 0, 0, 1));
+            l.push(xadd);
+        } else {
+            l.push(xadd);
+            l.push(ins(0x07, a.src_reg, 0, 0, e.loop_step as i32));
+            l.push(ins(0x17, 9, 0, 0, 1));
+        }
         l.push(ins(0x55, 9, 0, -4, 0));
         l.extend(after);
         return l;
     }
     if e.loop_n > 1 {
-        // mov r9, n ; L: body ; sub r9, 1 ; jne r9, 0, L
+        // mov r9, n ; L: body ; sub r9, 1 ; jne r9, 0, L      (or: L: sub r9, 1 ; body ; jne r9, 0, L)
         let mut l = vec![ins(0xb7, 9, 0, 0, e.loop_n as i32)];
         let blen = v.len() as i16;
-        l.extend(v);
-        l.push(ins(0x17, 9, 0, 0, 1));
+        if e.loop_dec_first {
+            l.push(ins(0x17, 9, 0, 0, 1));
+            l.extend(v);
+        } else {
+            l.extend(v);
+            l.push(ins(0x17, 9, 0, 0, 1));
+        }
         l.push(ins(0x55, 9, 0, -(blen + 2), 0));
         v = l;
     }
@@ -332,11 +449,23 @@ impl Scenario {
                 aj["via_lddw"] = a.via_lddw.into();
                 aj["src_is_base"] = a.src_is_base.into();
                 aj["aligned"] = aligned(a).into();
+                if let Some(g) = &a.guard {
+                    let mut gj = JsonValue::new_object();
+                    gj["pre"] = g.pre.into();
+                    gj["alu"] = g.alu.into();
+                    gj["alu_imm"] = g.alu_imm.into();
+                    gj["jmp"] = g.jmp.into();
+                    gj["jmp_imm"] = g.jmp_imm.into();
+                    gj["skip"] = g.skip.into();
+                    gj["taken"] = g.taken().into();
+                    aj["guard"] = gj;
+                }
                 adds.push(aj);
             }
             j["adds"] = JsonValue::Array(adds);
             j["loop_n"] = e.loop_n.into();
             j["loop_step"] = e.loop_step.into();
+            j["loop_dec_first"] = e.loop_dec_first.into();
             j["in_callee"] = e.in_callee.into();
             j["helper_first"] = e.helper_first.into();
             if let Some(c) = &e.stack_check {
@@ -380,6 +509,12 @@ impl Scenario {
                     bias: a["bias"].as_i32()?,
                     via_lddw: a["via_lddw"].as_bool()?,
                     src_is_base: a["src_is_base"].as_bool().unwrap_or(false),
+                    guard: if a["guard"].is_object() {
+                        let g = &a["guard"];
+                        Some(Guard { pre: g["pre"].as_i32()?, alu: g["alu"].as_u8()?, alu_imm: g["alu_imm"].as_i32()?, jmp: g["jmp"].as_u8()?, jmp_imm: g["jmp_imm"].as_i32()?, skip: g["skip"].as_u8()? })
+                    } else {
+                        None
+                    },
                 });
             }
             execs.push(ExecSpec {
@@ -389,6 +524,7 @@ impl Scenario {
                 tail_load: if e["tail_load"].is_null() { None } else { Some((e["tail_load"][0].as_u16()?, e["tail_load"][1].as_u8()?)) },
                 loop_n: e["loop_n"].as_u8().unwrap_or(1).clamp(1, 8),
                 loop_step: e["loop_step"].as_u32().unwrap_or(0),
+                loop_dec_first: e["loop_dec_first"].as_bool().unwrap_or(false),
                 in_callee: e["in_callee"].as_bool().unwrap_or(false),
                 helper_first: e["helper_first"].as_bool().unwrap_or(false),
                 stack_check: if e["stack_check"].is_object() {
@@ -518,7 +654,46 @@ fn generate(rng: &mut Rng) -> Scenario {
             let bias = if (off as i32 - bias) > 32000 || (off as i32 - bias) < -32000 { 0 } else { bias };
             // rarely: the same register is base and source
             let src_is_base = rng.chance(1, 16);
-            adds.push(Add { width, off, addend, base_reg, src_reg, bias, via_lddw, src_is_base });
+            // a conditional jump on a register computed right before the add
+            let guard = if rng.chance(1, 5) {
+                let pre = match rng.below(5) {
+                    0 => 0,
+                    1 => 1,
+                    2 => -1,
+                    3 => rng.range(2, 5) as i32,
+                    _ => rng.next_u64() as i32,
+                };
+                let alu = *rng.pick(&[0x07u8, 0x17, 0x17, 0x47, 0x57, 0xa7, 0x04, 0x14, 0x44, 0x54, 0xa4]);
+                let alu_imm = match rng.below(5) {
+                    0 => 0,
+                    1 => 1,
+                    2 => pre,
+                    3 => -1,
+                    _ => rng.next_u64() as i32,
+                };
+                let jmp = (*rng.pick(&[0x15u8, 0x55, 0x15, 0x55, 0x25, 0x35, 0xa5, 0xb5, 0x45, 0x65, 0x75, 0xc5, 0xd5]) & 0xf0) | if rng.chance(1, 4) { 0x06 } else { 0x05 };
+                let jmp_imm = match rng.below(4) {
+                    0 | 1 => 0,
+                    2 => 1,
+                    _ => rng.next_u64() as i32,
+                };
+                // the unsigned 64-bit comparisons only get non-negative immediates: the engines
+                // disagree on how a negative one is widened (a matter of C01/C03, not of this check)
+                let jmp_imm = if jmp & 7 == 5 && matches!(jmp & 0xf0, 0x20 | 0x30 | 0xa0 | 0xb0) { jmp_imm & 0x7fff_ffff } else { jmp_imm };
+                let g = Guard { pre, alu, alu_imm, jmp, jmp_imm, skip: rng.range(1, 2) as u8 };
+                // ... and the register tested is always the sign extension of its low half, so that
+                // comparing 32 or 64 bits gives the same answer (the Cranelift translation compares
+                // 32 bits for every jump: again a matter of C04, not of this check)
+                let r = g.reg_value();
+                if r == r as i32 as i64 as u64 {
+                    Some(g)
+                } else {
+                    None
+                }
+            } else {
+                None
+            };
+            adds.push(Add { width, off, addend, base_reg, src_reg, bias, via_lddw, src_is_base, guard });
         }
         let tail_load = if rng.chance(1, 2) {
             let s = *rng.pick(&slots);
@@ -528,7 +703,12 @@ fn generate(rng: &mut Rng) -> Scenario {
         };
         let loop_n = if rng.chance(1, 4) { rng.range(2, if deep { 6 } else { 4 }) as u8 } else { 1 };
         if loop_n > 1 {
-            // r9 is the loop counter
+            for a in adds.iter_mut() {
+                a.guard = None;
+            }
+        }
+        if loop_n > 1 || adds.iter().any(|a| a.guard.is_some()) {
+            // r9 is the loop counter / the guard register
             for a in adds.iter_mut() {
                 if a.base_reg == 9 {
                     a.base_reg = 7;
@@ -542,7 +722,8 @@ fn generate(rng: &mut Rng) -> Scenario {
         let in_callee = engine != Engine::Cl && rng.chance(1, 5);
         let helper_first = rng.chance(1, 5);
         let mut loop_step = if loop_n > 1 && adds.len() == 1 && !adds[0].src_is_base && aligned(&adds[0]) && rng.chance(1, 2) { rng.range(1, 1 << 20) as u32 } else { 0 };
-        if loop_step > 0 && (0..loop_n as u64).any(|k| adds[0].addend.wrapping_add(k * loop_step as u64) & mask(adds[0].width) == 0) {
+        let loop_dec_first = loop_n > 1 && rng.chance(1, 2);
+        if loop_step > 0 && (0..=loop_n as u64).any(|k| adds[0].addend.wrapping_add(k * loop_step as u64) & mask(adds[0].width) == 0) {
             loop_step = 0; // every add must change its word (a compare-exchange that changes nothing reads as a failed one)
         }
         let stack_check = if rng.chance(1, 4) {
@@ -569,13 +750,14 @@ fn generate(rng: &mut Rng) -> Scenario {
         };
         // after all the re-assignments above: the source is never the base (unless meant to be),
         // never r6, never the loop counter, never the register that carries the stack self-check
+        let uses_r9 = adds.iter().any(|a| a.guard.is_some());
         for a in adds.iter_mut() {
-            let reserved = |r: u8| r == 6 || r == a.base_reg || (loop_n > 1 && r == 9) || (stack_check.is_some() && r == 8);
+            let reserved = |r: u8| r == 6 || r == a.base_reg || ((loop_n > 1 || uses_r9) && r == 9) || (stack_check.is_some() && r == 8);
             if !a.src_is_base && reserved(a.src_reg) {
                 a.src_reg = *[2u8, 3, 4, 5].iter().find(|r| !reserved(**r)).unwrap();
             }
         }
-        execs.push(ExecSpec { engine, reach, adds, tail_load, loop_n, loop_step, in_callee, helper_first, stack_check });
+        execs.push(ExecSpec { engine, reach, adds, tail_load, loop_n, loop_step, loop_dec_first, in_callee, helper_first, stack_check });
     }
     let strategy = match rng.below(3) {
         0 => Strategy::Uniform,
@@ -612,6 +794,7 @@ impl Outcome {
             Outcome::Ok(v) => format!("Ok({:#x})", v),
             Outcome::Err(e) => format!("Err({})", e.lines().next().unwrap_or("").chars().take(80).collect::<String>()),
             Outcome::Panic(p) => format!("Panic({})", p.chars().take(80).collect::<String>()),
+            Outcome::Signal(s) if *s == sched::RUNAWAY => format!("RanAway(more than {} accesses to the shared region or {} s of CPU)", sched::ACCESS_BUDGET, sched::CPU_BUDGET_S),
             Outcome::Signal(s) => format!("Signal({})", s),
             Outcome::NotBuilt(e) => format!("NotBuilt({})", e.chars().take(80).collect::<String>()),
         }
@@ -751,6 +934,13 @@ fn finish(me: usize) {
 }
 
 fn run_scenario(sc: &Scenario, rng: &mut Rng) -> RunOutput {
+    sched::cpu_budget(sched::CPU_BUDGET_S);
+    let out = run_scenario_inner(sc, rng);
+    sched::cpu_budget(0);
+    out
+}
+
+fn run_scenario_inner(sc: &Scenario, rng: &mut Rng) -> RunOutput {
     let s = sim();
     let n = sc.execs.len();
     s.nthreads = n;
@@ -872,14 +1062,25 @@ fn expected_writes(spec: &ExecSpec) -> (Vec<Add>, bool) {
     }
     let varying = spec.loop_n > 1 && spec.loop_step > 0 && spec.adds.len() == 1 && !spec.adds[0].src_is_base;
     for k in 0..spec.loop_n.max(1) {
+        let mut skip = 0u8;
         for a in &spec.adds {
+            if skip > 0 {
+                skip -= 1; // jumped over by the guard of an earlier add
+                continue;
+            }
             if !aligned(a) && spec.engine == Engine::Interp {
                 return (v, true);
+            }
+            if let Some(g) = &a.guard {
+                if guards_active(spec) && g.taken() {
+                    skip = g.skip;
+                }
             }
             let mut a = a.clone();
             if varying {
                 // the register was loaded once (mov64 sign-extends, lddw loads all 64 bits) and grows
-                a.addend = a.addend.wrapping_add(k as u64 * spec.loop_step as u64);
+                let steps = if spec.loop_dec_first { k as u64 + 1 } else { k as u64 };
+                a.addend = a.addend.wrapping_add(steps * spec.loop_step as u64);
             }
             v.push(a);
         }
@@ -899,7 +1100,7 @@ fn check(sc: &Scenario, out: &RunOutput) -> Option<Violation> {
         let (exp, must_err) = expected_writes(spec);
         let evs: Vec<&Event> = out.solo[i].events.iter().filter(|e| is_write(e)).collect();
         match (&out.outs[i].solo, must_err) {
-            (Outcome::Signal(s), _) => return Some(Violation { class: format!("execution-crashed/{}", eng), detail: format!("execution #{} alone died with signal {}", i, s) }),
+            (Outcome::Signal(s), _) => return Some(Violation { class: format!("execution-crashed/{}", eng), detail: format!("execution #{} alone: {}", i, out.outs[i].solo.short()) }),
             (Outcome::Panic(p), _) => return Some(Violation { class: format!("execution-crashed/{}", eng), detail: format!("execution #{} alone panicked: {}", i, p) }),
             (Outcome::Ok(_), true) => {
                 return Some(Violation { class: "misaligned-not-refused".into(), detail: format!("execution #{} ({}) contains a misaligned atomic add and returned {}; events: {}", i, eng, out.outs[i].solo.short(), evs.iter().map(|e| ev_desc(e)).collect::<Vec<_>>().join(", ")) });
@@ -1166,10 +1367,12 @@ fn same_class(v: &Option<Violation>, class: &str) -> bool {
 fn minimise(sc: &Scenario, class: &str) -> (Scenario, usize) {
     let mut cur = sc.clone();
     let mut evals = 0usize;
-    let budget = 400usize;
+    // every variant that runs into the CPU budget costs seconds: give up on minimising after a few
+    let fired0 = sched::WATCHDOG_FIRED.load(std::sync::atomic::Ordering::Relaxed);
+    let budget = || if sched::WATCHDOG_FIRED.load(std::sync::atomic::Ordering::Relaxed) - fired0 > 3 { 0usize } else { 400usize };
     // drop executions (thread ids in the schedule are remapped)
     let mut i = 0;
-    while i < cur.execs.len() && cur.execs.len() > 1 && evals < budget {
+    while i < cur.execs.len() && cur.execs.len() > 1 && evals < budget() {
         let mut cand = cur.clone();
         cand.execs.remove(i);
         if let Some(s) = cand.schedule.as_mut() {
@@ -1192,7 +1395,7 @@ fn minimise(sc: &Scenario, class: &str) -> (Scenario, usize) {
     // drop adds
     for t in 0..cur.execs.len() {
         let mut j = 0;
-        while j < cur.execs[t].adds.len() && cur.execs[t].adds.len() > 1 && evals < budget {
+        while j < cur.execs[t].adds.len() && cur.execs[t].adds.len() > 1 && evals < budget() {
             let mut cand = cur.clone();
             cand.execs[t].adds.remove(j);
             evals += 1;
@@ -1204,7 +1407,7 @@ fn minimise(sc: &Scenario, class: &str) -> (Scenario, usize) {
                 j += 1;
             }
         }
-        if cur.execs[t].tail_load.is_some() && evals < budget {
+        if cur.execs[t].tail_load.is_some() && evals < budget() {
             let mut cand = cur.clone();
             cand.execs[t].tail_load = None;
             evals += 1;
@@ -1217,7 +1420,7 @@ fn minimise(sc: &Scenario, class: &str) -> (Scenario, usize) {
     }
     // fewest context switches: make decision k repeat decision k-1 where the violation survives
     let mut k = 1;
-    while evals < budget {
+    while evals < budget() {
         let sched = cur.schedule.clone().unwrap_or_default();
         if k >= sched.len() {
             break;
@@ -1239,10 +1442,36 @@ fn minimise(sc: &Scenario, class: &str) -> (Scenario, usize) {
             k += 1;
         }
     }
+    // drop guards and the alternative loop shape
+    for t in 0..cur.execs.len() {
+        for j in 0..cur.execs[t].adds.len() {
+            if cur.execs[t].adds[j].guard.is_none() || evals >= budget() {
+                continue;
+            }
+            let mut cand = cur.clone();
+            cand.execs[t].adds[j].guard = None;
+            evals += 1;
+            let (v, out) = eval(&cand);
+            if same_class(&v, class) {
+                cand.schedule = Some(out.conc.effective.clone());
+                cur = cand;
+            }
+        }
+        if cur.execs[t].loop_dec_first && evals < budget() {
+            let mut cand = cur.clone();
+            cand.execs[t].loop_dec_first = false;
+            evals += 1;
+            let (v, out) = eval(&cand);
+            if same_class(&v, class) {
+                cand.schedule = Some(out.conc.effective.clone());
+                cur = cand;
+            }
+        }
+    }
     // simplify addends
     for t in 0..cur.execs.len() {
         for j in 0..cur.execs[t].adds.len() {
-            if evals >= budget {
+            if evals >= budget() {
                 break;
             }
             let mut cand = cur.clone();
